@@ -212,7 +212,9 @@ Definition tcb_recv (recv_cap : N) (t : tcb) (want : N) : tcb * res (list N) * b
     else (t, Pending, false)
   else
     let n := N.min (len (recv_buf t)) want in
-    (set_recv_buf t (dropN n (recv_buf t)), Ready (takeN n (recv_buf t)), recv_cap / 2 <=? n)
+    (* window update: the read frees half the cap, or it reopens a window that was advertised as 0 *)
+    (set_recv_buf t (dropN n (recv_buf t)), Ready (takeN n (recv_buf t)),
+     (recv_cap / 2 <=? n) || ((adv_window recv_cap (len (recv_buf t)) =? 0) && (0 <? n)))
   end.
 
 (* ---- poll_peek (tcp.rs:1073) ---- *)
@@ -1298,6 +1300,68 @@ Definition cstep (k : kcfg) (c : conn) (e : cev) : conn :=
   end.
 
 Definition crun (k : kcfg) (c : conn) (es : list cev) : conn := fold_left (cstep k) es c.
+
+(* ------------------------------------------------------------------ *)
+(* The connection system with ghost stamps (C06 liveness): every segment put
+   on the wire gets a stamp (its index in `lhist`), `lhist` remembers for
+   whom it was, which window it advertised and whether it is a pure window
+   update (emitted by a read), `lst` carries the stamps of the segments that
+   are on the wire (same order as `cwire`), `ldel` the stamps delivered so
+   far, in order.  `lc` evolves exactly by `cstep`.                        *)
+
+Record ginfo := mkg { g_dst : side; g_win : N; g_upd : bool }.
+Record lstate := mkl { lc : conn; lst : list nat; lhist : list ginfo; ldel : list nat }.
+
+Definition linit (c : conn) : lstate :=
+  mkl c (seq 0 (length (cwire c))) (map (fun e => mkg (fst e) (win (snd e)) false) (cwire c)) [].
+
+Definition is_read (e : cev) : bool := match e with CRead _ _ => true | _ => false end.
+
+Definition lstep (k : kcfg) (l : lstate) (e : cev) : lstate :=
+  let c := lc l in
+  let c' := cstep k c e in
+  match e with
+  | CDrop i => mkl c' (remove_nth (lst l) i) (lhist l) (ldel l)
+  | _ =>
+      let extra := skipn (length (cwire c)) (cwire c') in
+      mkl c' (lst l ++ seq (length (lhist l)) (length extra))
+          (lhist l ++ map (fun x => mkg (fst x) (win (snd x)) (is_read e)) extra)
+          (match e with
+           | CDeliver i => match nth_error (lst l) i with Some s => ldel l ++ [s] | None => ldel l end
+           | _ => ldel l end)
+  end.
+
+Definition lrun (k : kcfg) (l : lstate) (es : list cev) : lstate := fold_left (lstep k) es l.
+
+Definition is_upd_to (h : list ginfo) (d : side) (u : nat) : Prop :=
+  exists g, nth_error h u = Some g /\ g_dst g = d /\ g_upd g = true.
+
+(* The schedules C06's liveness claim is about: nothing is injected; a pure
+   window update is not dropped before it has been delivered; and once a pure
+   window update has been delivered to a side, no older segment is delivered
+   to that side any more (it is not overtaken).  Everything else — loss,
+   duplication, reordering of data, FINs and ordinary ACKs — is unrestricted. *)
+Definition fair_step (l : lstate) (e : cev) : Prop :=
+  match e with
+  | CInject _ _ => False
+  | CDeliver i =>
+      match nth_error (lst l) i, nth_error (cwire (lc l)) i with
+      | Some s, Some (d, _) => forall u, In u (ldel l) -> is_upd_to (lhist l) d u -> (u <= s)%nat
+      | _, _ => True
+      end
+  | CDrop i =>
+      match nth_error (lst l) i with
+      | Some s => (exists g, nth_error (lhist l) s = Some g /\ g_upd g = true) -> In s (ldel l)
+      | None => True
+      end
+  | _ => True
+  end.
+
+Fixpoint fair_run (k : kcfg) (l : lstate) (es : list cev) : Prop :=
+  match es with
+  | [] => True
+  | e :: r => fair_step l e /\ fair_run k (lstep k l e) r
+  end.
 
 (* ------------------------------------------------------------------ *)
 (* One host together with the application's handle table (C13 ownership).
